@@ -350,6 +350,9 @@ def ob_project(dim):
         if pr.alias is not None:
             r3 = g.reach('al')
             for o in pr.outs[pr.alias]: check(o in r3, 'an alias target builds the target it names')
+        if pr.alias2 is not None:
+            r5 = g.reach('al2')
+            for o in pr.outs[pr.alias2]: check(o in r5, 'an alias of an alias / of a run target builds what that one builds')
         if pr.run_needs is not None:
             r4 = g.reach('rt')
             for o in pr.outs[pr.run_needs]: check(o in r4, 'a run target builds the targets its command and depends: name')
